@@ -80,6 +80,7 @@ func c10ExecNet(r *sim.Run, sc *c10Scenario) {
 	describe := func() string {
 		return fmt.Sprintf("[real transport over simnet] retry=%+v (reference: maxAttempts=%d wait=%v exponential=%v rf=%.2f) timeout=%v failureCodes=%v", rt, ref.maxAttempts, ref.wait, ref.exponential, ref.rf, ref.timeout, sc.FailureCodes)
 	}
+	streamResp := sc.MaxBody < 0
 	maxAOf := func(st *c10Req) int {
 		if st.op.Stream || !rt.On {
 			return 1
@@ -119,6 +120,9 @@ func c10ExecNet(r *sim.Run, sc *c10Scenario) {
 		}
 		if script.Kind == "hang" && ref.timeout == 0 {
 			script = c10Attempt{Kind: "neterr", LatUs: 1000}
+		}
+		if script.Kind == "noserver" { // stub variant only
+			script.Kind = "neterr"
 		}
 		wait := func(d time.Duration) bool { // false: the peer went away
 			if d > 0 {
@@ -228,11 +232,16 @@ func c10ExecNet(r *sim.Run, sc *c10Scenario) {
 			}
 			att.kind, att.status = "resp", status
 			att.failed = c10InCodes(sc.FailureCodes, status)
-			note("%s.a%d backend answers %d", st.name, idx, status)
+			att.sent = att.tag
+			if streamResp && sc.RespPadK > 0 {
+				// a body that does not fit into the transport's read buffer together with the head
+				att.sent = att.tag + "-" + strings.Repeat("y", sc.RespPadK<<10)
+			}
+			note("%s.a%d backend answers %d (%d body bytes)", st.name, idx, status, len(att.sent))
 			w.Header().Set("X-C10-Attempt", att.tag)
-			w.Header().Set("Content-Length", fmt.Sprint(len(att.tag)))
+			w.Header().Set("Content-Length", fmt.Sprint(len(att.sent)))
 			w.WriteHeader(status)
-			io.WriteString(w, att.tag)
+			io.WriteString(w, att.sent)
 		}
 	})}
 	go srv.Serve(ln)
@@ -248,7 +257,7 @@ func c10ExecNet(r *sim.Run, sc *c10Scenario) {
 		return resp, err
 	}
 
-	px := &Proxy{spec: &Spec{Pools: []*ServerPoolSpec{spec}}}
+	px := &Proxy{spec: &Spec{Pools: []*ServerPoolSpec{spec}, ServerMaxBodySize: c10ProxyMaxBody(sc)}}
 	px.reload()
 	px.InjectResiliencePolicy(policies)
 	sp := px.mainPool
@@ -258,9 +267,9 @@ func c10ExecNet(r *sim.Run, sc *c10Scenario) {
 		px.Close()
 	}()
 
-	var sawTimeout408, sawReset503, sawRetrySuccess, sawBodyCut bool
+	var sawTimeout408, sawReset503, sawRetrySuccess, sawBodyCut, sawStreamOK, sawStreamBig, sawStreamCutByBackend bool
 
-	finish := func(st *c10Req, result string, status int, body string, hasResp bool, dur time.Duration, pnc interface{}, stack string) {
+	finish := func(st *c10Req, result string, status int, body string, rerr error, hasResp bool, dur time.Duration, pnc interface{}, stack string) {
 		n := len(st.atts)
 		note("%s return result=%q status=%d backend-attempts=%d after %v", st.name, result, status, n, dur)
 		if pnc != nil {
@@ -287,7 +296,7 @@ func c10ExecNet(r *sim.Run, sc *c10Scenario) {
 			r.Violate("C10.net-timeout-hang", "request %s: ServerPool.handle returned after %v of simulated time; bound for maxAttempts=%d, timeout=%v is %v\n%s\nhistory: %s", st.name, dur, maxAOf(st), T, bound, describe(), history())
 			return
 		}
-		leak := strings.Contains(body, "-attempt-")
+		leak := strings.Contains(body, "-attempt-") && !streamResp // a stream response is handed on as it comes
 		timeoutOK := T > 0 && result == "timeout" && hasResp && status == http.StatusRequestTimeout && !leak
 		if leak {
 			explained := false
@@ -316,7 +325,35 @@ func c10ExecNet(r *sim.Run, sc *c10Scenario) {
 			cands = st.atts
 		}
 		answered := 0
+		var headOnly *c10Att // stream response: status and result are an attempt's, the body is not (completely)
 		for _, a := range cands {
+			want := ""
+			if c10InCodes(sc.FailureCodes, a.status) {
+				want = "failureCode"
+			}
+			if streamResp && (a.kind == "resp" || a.kind == "bodyerr") && result == want && hasResp && status == a.status {
+				switch {
+				case a.kind == "bodyerr" && strings.HasPrefix(a.sent, body):
+					// the backend cut its body: the client gets a prefix of what was sent
+					sawStreamCutByBackend = true
+					return
+				case a.kind == "resp" && body == a.sent && rerr == nil:
+					sawStreamOK = true
+					if len(a.sent) > 4096 {
+						sawStreamBig = true
+					}
+					if n >= 2 && !a.failed {
+						sawRetrySuccess = true
+					}
+					return
+				case a.kind == "resp" && strings.HasPrefix(a.sent, body) && rerr != nil && (headOnly == nil || len(body) > 0):
+					headOnly = a
+				}
+			}
+			if streamResp && a.kind == "resp" {
+				answered++
+				continue
+			}
 			switch a.kind {
 			case "err":
 				answered++
@@ -352,6 +389,23 @@ func c10ExecNet(r *sim.Run, sc *c10Scenario) {
 			}
 			return
 		}
+		if headOnly != nil {
+			// The answer's head was accepted as the request's outcome, then the stream broke
+			// although the backend sent the complete body. With a pool time-out that is only
+			// explicable once the time-out has elapsed since the call.
+			if T > 0 && r.Now()-st.callAt >= T {
+				r.Probe("c10.net.streamresp.cut_after_timeout_elapsed")
+				return
+			}
+			if rerr != nil && strings.Contains(rerr.Error(), "context canceled") {
+				r.Violate("C10.spurious-cancel.stream-body", "request %s: the backend answered status %d with a complete body of %d bytes; ServerPool.handle returned result %q status %d after %v, the client did not cancel and the pool time-out (%v) has not elapsed, yet reading the response stream fails after %d bytes with %q: the context of the backend call was cancelled by the pool itself\n%s\nhistory: %s",
+					st.name, headOnly.status, len(headOnly.sent), result, status, dur, T, len(body), rerr, describe(), history())
+				return
+			}
+			r.Violate("C10.final-outcome", "request %s: the backend answered status %d with a complete body of %d bytes, the client got result %q status %d and %d body bytes, then the read error %v\n%s\nhistory: %s",
+				st.name, headOnly.status, len(headOnly.sent), result, status, len(body), rerr, describe(), history())
+			return
+		}
 		var seen []string
 		for _, a := range st.atts {
 			seen = append(seen, fmt.Sprintf("%s/%d", a.kind, a.status))
@@ -364,7 +418,7 @@ func c10ExecNet(r *sim.Run, sc *c10Scenario) {
 			r.Violate("C10.other", "request %s: attempts %v without a pool timeout (result %q status %d)\n%s\nhistory: %s", st.name, seen, result, status, describe(), history())
 		default:
 			r.Violate("C10.final-outcome", "request %s: backend attempts %v (kind/status, bodies <request>-attempt-<n>), client got result %q status %d body %q: not the outcome of %s\n%s\nhistory: %s",
-				st.name, seen, result, status, body, map[bool]string{true: "any answered attempt nor timeout / 408", false: "the last attempt"}[T > 0], describe(), history())
+				st.name, seen, result, status, c10Clip(body, 60), map[bool]string{true: "any answered attempt nor timeout / 408", false: "the last attempt"}[T > 0], describe(), history())
 		}
 	}
 
@@ -439,16 +493,22 @@ func c10ExecNet(r *sim.Run, sc *c10Scenario) {
 				st.done = true
 				st.result = result
 				status, body, hasResp := 0, "", false
+				var rerr error
 				if pnc == nil {
 					if resp, ok := ctx.GetOutputResponse().(*httpprot.Response); ok && resp != nil {
 						hasResp = true
 						status = resp.StatusCode()
 						if !resp.IsStream() {
 							body = string(resp.RawPayload())
+						} else {
+							// as the HTTP server does: copy the stream to the client
+							var b []byte
+							b, rerr = io.ReadAll(io.LimitReader(resp.GetPayload(), 1<<20))
+							body = string(b)
 						}
 					}
 				}
-				finish(st, result, status, body, hasResp, dur, pnc, stack)
+				finish(st, result, status, body, rerr, hasResp, dur, pnc, stack)
 				ctx.Finish()
 			}
 		})
@@ -470,11 +530,23 @@ func c10ExecNet(r *sim.Run, sc *c10Scenario) {
 	if sawBodyCut {
 		r.Probe("c10.net.body_cut_5xx")
 	}
-	if sawTimeout408 || sawReset503 || sawRetrySuccess || sawBodyCut {
+	if streamResp {
+		r.Probe("c10.net.streamresp.runs")
+	}
+	if sawStreamOK {
+		r.Probe("c10.net.streamresp.complete_body_read")
+	}
+	if sawStreamBig {
+		r.Probe("c10.net.streamresp.complete_big_body_read")
+	}
+	if sawStreamCutByBackend {
+		r.Probe("c10.net.streamresp.backend_body_cut")
+	}
+	if sawTimeout408 || sawReset503 || sawRetrySuccess || sawBodyCut || (sawStreamOK && ref.timeout > 0) {
 		r.Nontrivial()
 	}
 	var sig strings.Builder
-	fmt.Fprintf(&sig, "net|%d/%v/%d|%v|", ref.maxAttempts, ref.exponential, rt.RFPct, sc.TimeoutUs > 0)
+	fmt.Fprintf(&sig, "net|%d/%v/%d|%v|%v|", ref.maxAttempts, ref.exponential, rt.RFPct, sc.TimeoutUs > 0, streamResp)
 	for _, q := range all {
 		fmt.Fprintf(&sig, "%s:", q.name)
 		for _, a := range q.atts {
